@@ -4,3 +4,9 @@ from . import c05
 
 def check(tier="quick", seed=0, workers=None, only=None):
     return c05.check(tier, seed, workers, only, pid="C06", prefixes=("C06",))
+
+
+def replay_case(case):
+    """Case-based violations of C06 come from the peer-input corpus (mc.props.c15)."""
+    from . import c15
+    return [v for v in c15.replay_all(case) if v["oracle"].startswith("C06.")]
